@@ -118,7 +118,7 @@ def _file_case(args):
         blackbird.load(path)
         out = ("PROGRAM",)
     except Exception as e:  # noqa
-        out = ("BSE",) if type(e).__name__ == "BlackbirdSyntaxError" else ("OTHER", type(e).__name__, str(e).replace(d, "<D>")[:120])
+        out = ("BSE",) if type(e).__name__ == "BlackbirdSyntaxError" else ("OTHER", type(e).__name__, str(e).replace(path, "<FILE>").replace(d, "<D>")[:120])
     if m[0] == "OK":
         # grammatical: any semantic outcome is fine here, but the file must be *readable*
         if out[0] == "OTHER" and out[1] in ("UnicodeDecodeError", "UnicodeError"):
